@@ -10,6 +10,12 @@ from crysp.utils.operators import ror
 from crysp.sha import SHA2
 from crysp.padding import Blakepadding
 
+# verification hook (off unless BDCHT_CRYSP_VERIF=1): when set to a callable by a monitor,
+# it receives (variant, size, counter, final_flag) for every compressed block.
+import os
+_verif_on = os.environ.get('BDCHT_CRYSP_VERIF')=='1'
+_verif_emit = None
+
 PI= [0x243F6A8885A308D3,
      0x13198A2E03707344,
      0xA4093822299F31D0,
@@ -99,6 +105,8 @@ class Blake(object):
             # counter convention is dumb: t[0] is the *low* wsize part
             t0,t1 = Bits(self.padmethod.bitcnt,2*self.wsize).split(self.wsize)
             polyt = Poly([t0,t0,t1,t1],self.wsize)
+            if _verif_on and _verif_emit is not None:
+                _verif_emit('blake',self.size,self.padmethod.bitcnt,None)
             v[8:12] = s^self.c[0:4]
             v[12:16] = polyt^self.c[4:8]
             for r in range(self.rounds):
@@ -202,6 +210,8 @@ class Blake2(Blake):
             v[8:12] = self.IV[0:4]
             # counter of *bytes*, in little-endian
             t = Bits(self.t,2*self.wsize).split(self.wsize)
+            if _verif_on and _verif_emit is not None:
+                _verif_emit('blake2',self.size,self.t,self.f.ival[0])
             v[12:14] = Poly(t,self.wsize)^self.IV[4:6]
             v[14:16] = self.f^self.IV[6:8]
             for r in range(self.rounds):
